@@ -29,7 +29,7 @@ def run(ctx):
     rnd = random.Random(ctx.seed)
 
     # ------------------------------------------------------------------ 1. the grid: model checking
-    ctx.tlc("GlobalGrid", "SPECIFICATION Spec\n" + PROPS + (WIDE if T else FULL), note="complete reachable state space of gv")
+    ctx.tlc("GlobalGrid", "SPECIFICATION Spec\n" + PROPS + (WIDE if T else FULL), note="complete reachable state space of gv", actions=["Call", "Clean"])
     ctx.exhaustive = True
     # unbounded: GridConsistent as an inductive invariant over all positive integers (Apalache), linked to GlobalGrid by a TLC-checked
     # step refinement; negative control = the pre-fix behaviour (grid rebuilt only when N is passed) must break the induction step
